@@ -119,7 +119,8 @@ func (gen *generator) irMetadata(old ast.Metadata) (metadata.Metadata, error) {
 		case ast.Constant:
 			return gen.irConstant(typ, oldVal)
 		default:
-			panic(fmt.Errorf("support for metadata value %T not yet implemented", oldVal))
+			// e.g. a local identifier: no function scope exists at module level.
+			return nil, errors.Errorf("invalid metadata value %T at module level; expected constant", oldVal)
 		}
 	case *ast.MDString:
 		s := stringLit(old.Val())
